@@ -141,7 +141,18 @@ def run_real(cfg: Dict[str, Any]) -> Tuple[List[List[Any]], str]:
 
     # registration order B, B2, A, I, O (RegOrder in the spec)
     order = [t for t in ["B", "B2", "A", "I", "O"] if t in cfg["exts"]]
-    vis = Main(V.ExtList(*[mk(t) for t in order]))
+    if cfg.get("hist", "fresh") == "rewalk":
+        # the visitor has already walked this tree without any extension; they are registered afterwards
+        vis = Main(V.ExtList())
+        try:
+            getattr(vis, cfg["mode"])(nodes[1])
+        except V.Visitor._TreePruningException:
+            pass
+        del events[:]
+        vis.extensions.add(*[mk(t) for t in order])
+        vis.extensions.attach_visitor(vis)
+    else:
+        vis = Main(V.ExtList(*[mk(t) for t in order]))
     status = "done"
     try:
         getattr(vis, cfg["mode"])(nodes[1])
@@ -244,11 +255,38 @@ def observe_builder(source: str, exts: List[str]) -> Dict[str, Any]:
     return {"cfg": cfg, "events": events, "status": status, "stack": stack_state, "nested": nested_calls["n"]}
 
 
+def builder_states_of_package(path) -> List[Tuple[str, Tuple[int, bool, bool]]]:
+    """Build a package from disk; after every processModuleAST record (len(_stack), current is None, currentMod is None)."""
+    from pydoctor import model, astbuilder
+    out: List[Tuple[str, Tuple[int, bool, bool]]] = []
+    orig_pm = astbuilder.ASTBuilder.processModuleAST
+    orig_msg = model.System.msg
+
+    def pm(self, mod_ast, mod):
+        try:
+            return orig_pm(self, mod_ast, mod)
+        finally:
+            out.append((mod.fullName(), (len(self._stack), self.current is None, self.currentMod is None)))
+
+    astbuilder.ASTBuilder.processModuleAST = pm
+    model.System.msg = lambda self, *a, **k: None
+    try:
+        system = model.System()
+        b = system.systemBuilder(system)
+        b.addModule(path)
+        b.buildModules()
+    finally:
+        astbuilder.ASTBuilder.processModuleAST = orig_pm
+        model.System.msg = orig_msg
+    return out
+
+
 # ------------------------------------------------------------------------------------------ check
 CFG_ENUM = """SPECIFICATION Spec
 CONSTANTS MaxN = {maxn}
           Source = "enum"
           Modes = {{"walk", "walkabout"}}
+          Histories = {{"fresh", "rewalk"}}
 CONSTRAINT EmitTerminal
 INVARIANT EnteredAtMostOnce
 INVARIANT NoEscape
@@ -264,6 +302,7 @@ CFG_FILE = """SPECIFICATION Spec
 CONSTANTS MaxN = 0
           Source = "file"
           Modes = {}
+          Histories = {}
 CONSTRAINT EmitTerminal
 """
 
@@ -339,6 +378,25 @@ def run(ctx: Ctx) -> int:
         if o["stack"].get("stack") != 0 or not o["stack"].get("current_is_none"):
             ctx.violation({"invariant": "StackEmptyAfterModule", "origin": "astbuilder", "input": src,
                            "observed": o["stack"], "key": "stack:" + src[:80]})
+    # ---- the scope stack after every module of a PACKAGE tree (modules whose parent is a package, on-demand nesting)
+    pkg_modules = pkg_bad = 0
+    for t in range(6 if ctx.quick else 60):
+        d = ctx.scratch / f"pkgtree{t}"
+        files = {"pk/__init__.py": "from .a import *\n" if t % 2 else "", "pk/a.py": pygen.gen_module(rng, 2, 3),
+                 "pk/sub/__init__.py": "from ..a import *\nfrom . import deep\n" if t % 3 == 0 else "", "pk/sub/deep.py": pygen.gen_module(rng, 2, 2),
+                 "pk/b.py": "from .sub.deep import *\n" + pygen.gen_module(rng, 2, 2)}
+        for rel, text in files.items():
+            f = d / rel
+            f.parent.mkdir(parents=True, exist_ok=True)
+            f.write_text(text)
+        for name, state in builder_states_of_package(d / "pk"):
+            pkg_modules += 1
+            if state != (0, True, True):
+                pkg_bad += 1
+                ctx.violation({"invariant": "StackEmptyAfterModule", "origin": "astbuilder-package", "module": name, "files": files,
+                               "observed": {"stack": state[0], "current_is_none": state[1], "currentMod_is_none": state[2]},
+                               "key": "pkgstack:" + str(state)})
+    ctx.extra["astbuilder_package_modules"] = pkg_modules
     ctx.extra["astbuilder_modules"] = len(obs)
     ctx.extra["astbuilder_pruned_nodes"] = sum(1 for o in obs for p in o["cfg"]["prune"] if p != "none")
     if obs:
@@ -391,7 +449,14 @@ def run(ctx: Ctx) -> int:
 
 def replay(ctx: Ctx, path: str) -> int:
     w = json.load(open(path))
-    if w.get("origin") == "astbuilder" and "input" in w:
+    if w.get("origin") == "astbuilder-package":
+        d = ctx.scratch / "replaypkg"
+        for rel, text in w["files"].items():
+            f = d / rel
+            f.parent.mkdir(parents=True, exist_ok=True)
+            f.write_text(text)
+        bad = ["StackEmptyAfterModule"] if any(st != (0, True, True) for _, st in builder_states_of_package(d / "pk")) else []
+    elif w.get("origin") == "astbuilder" and "input" in w:
         o = observe_builder(w["input"], w["cfg"]["exts"])
         bad = contract(o["cfg"], o["events"], o["status"])
         if o["stack"].get("stack") != 0 or not o["stack"].get("current_is_none"):
